@@ -10,6 +10,7 @@ import (
 	"net"
 	"os"
 	"strings"
+	"sync/atomic"
 	"time"
 
 	"github.com/miekg/dns"
@@ -39,7 +40,7 @@ type tsigSpec struct {
 }
 
 type faultSpec struct {
-	Kind string // "" id rcode nosoa cut stall alter strip wrongkey chain stale drop dup swap
+	Kind string // "" id rcode nosoa cut stall runt alter strip wrongkey chain stale drop dup swap
 	Env  int    // envelope index (taken modulo the number of envelopes)
 	K    int    // cut: octet (mod stream length); alter: offset (mod covered region)
 	Val  int    // id: xor mask; rcode: code; alter: xor mask; nosoa/chain/wrongkey: variant
@@ -60,6 +61,8 @@ type xferCase struct {
 	Seg           []int
 	Trailer       bool
 	Compress      bool
+	Transport     string   // "" = stream (TCP-like); "dgram" = the caller-supplied Conn is a datagram conn, every envelope one datagram (IXFR only)
+	UDPSize       int      // dgram: dns.Conn.UDPSize of the receiver (0 = unset)
 	PaceMs        int      // harness sender: pause before each envelope is written (real time; 0 = none)
 	ConsumerMs    int      // pause of the consumer between two receives from the envelope channel
 	ReadTimeoutMs int      // Transfer.ReadTimeout for paced cases (0 = the harness default of 20 s)
@@ -246,6 +249,12 @@ func (c xferCase) valid() string {
 	if c.Tsig != nil {
 		if len(c.Tsig.Secret) == 0 || c.Tsig.KeyName != strings.ToLower(c.Tsig.KeyName) {
 			return "tsig key"
+		}
+	}
+	if c.Transport != "" {
+		ok := map[string]bool{"": true, "id": true, "rcode": true, "nosoa": true, "alter": true, "strip": true, "wrongkey": true, "chain": true, "stale": true}
+		if c.Transport != "dgram" || c.Mode == "axfr" || c.Sender != "harness" || !ok[c.Fault.Kind] || c.timed() || c.UDPSize < 0 || c.UDPSize > 65535 {
+			return "datagram transport: IXFR question, harness sender, envelope-level faults only"
 		}
 	}
 	if c.timed() && (c.Sender != "harness" || c.PaceMs > 1000 || c.ConsumerMs > 1000 || c.PaceMs < 0 || c.ConsumerMs < 0 || c.ReadTimeoutMs < 0 || len(c.Sizes) > 12) {
@@ -575,6 +584,16 @@ func buildPlan(c xferCase, reqMAC []byte, now uint64) plan {
 		p.frames[j].b = b
 		// undetectable without TSIG: only termination and close are asserted
 	}
+	if f.Kind == "runt" && n > 0 {
+		// a frame shorter than a DNS header (0..11 octets) in place of envelope j: never a message
+		l := f.Val % 12
+		p.frames[j].b = append([]byte{}, p.frames[j].b[:l]...)
+		p.frames[j].recs = nil
+		p.prefix = true
+		if signed || j == 0 {
+			p.firstBad, p.strong = j, true
+		}
+	}
 	// envelope-level faults
 	switch f.Kind {
 	case "drop":
@@ -659,6 +678,8 @@ type envOut struct {
 }
 
 type result struct {
+	cutTo       int           // dgram: a datagram of this size did not fit into the receiver's read buffer (0 = none)
+	stuck       bool          // the receiver went on waiting for data although the sender had finished and everything sent was consumed
 	events      []ioEvent     // deadline / read log of the receiver's end of the stream
 	readTimeout time.Duration // Transfer.ReadTimeout in force
 	envs        []envOut
@@ -673,7 +694,20 @@ func collect(ch chan *dns.Envelope, cli closeObserver, limit time.Duration) resu
 
 // collectSlow: a consumer that needs pause between two envelopes.
 func collectSlow(ch chan *dns.Envelope, cli closeObserver, limit, pause time.Duration) result {
+	return collectUntil(ch, cli, limit, pause, nil)
+}
+
+// collectUntil: stuck (optional) is polled every 20 ms; two consecutive positive answers end the
+// collection early with result.stuck set (the transfer could only end in the receiver's read timeout).
+func collectUntil(ch chan *dns.Envelope, cli closeObserver, limit, pause time.Duration, stuck func() bool) result {
 	var r result
+	var tick <-chan time.Time
+	if stuck != nil {
+		tk := time.NewTicker(20 * time.Millisecond)
+		defer tk.Stop()
+		tick = tk.C
+	}
+	hits := 0
 	wd := time.NewTimer(limit)
 	defer wd.Stop()
 	for {
@@ -696,6 +730,15 @@ func collectSlow(ch chan *dns.Envelope, cli closeObserver, limit, pause time.Dur
 			if len(r.envs) > 10000 {
 				return r
 			}
+		case <-tick:
+			if stuck() {
+				if hits++; hits >= 2 {
+					r.stuck = true
+					return r
+				}
+			} else {
+				hits = 0
+			}
 		case <-wd.C:
 			return r
 		}
@@ -715,9 +758,16 @@ func readFrame(e *endpoint) ([]byte, error) {
 }
 
 func newTransfer(c xferCase, cli *endpoint) *dns.Transfer {
+	if cli == nil {
+		return newTransferOn(c, nil)
+	}
+	return newTransferOn(c, cli)
+}
+
+func newTransferOn(c xferCase, conn net.Conn) *dns.Transfer {
 	tr := &dns.Transfer{ReadTimeout: 20 * time.Second, WriteTimeout: 20 * time.Second}
-	if cli != nil {
-		tr.Conn = &dns.Conn{Conn: cli}
+	if conn != nil {
+		tr.Conn = &dns.Conn{Conn: conn, UDPSize: uint16(c.UDPSize)}
 	}
 	if c.Tsig != nil {
 		tr.TsigSecret = c.secrets()
@@ -732,6 +782,9 @@ func newTransfer(c xferCase, cli *endpoint) *dns.Transfer {
 
 // runHarnessSender: receiver = dns.Transfer.In over the in-memory stream, sender = this harness.
 func runHarnessSender(c xferCase) (result, plan, error) {
+	if c.Transport == "dgram" {
+		return runDgram(c)
+	}
 	cli, srv := newPipe()
 	cli.in.seg = c.Seg
 	tr := newTransfer(c, cli)
@@ -780,6 +833,44 @@ func runHarnessSender(c xferCase) (result, plan, error) {
 	return r, p, nil
 }
 
+// runDgram: the receiver is given a datagram Conn; the harness answers the IXFR query with one
+// datagram per envelope (usually a single one).
+func runDgram(c xferCase) (result, plan, error) {
+	cli := newDgramConn()
+	tr := newTransferOn(c, cli)
+	ch, err := tr.In(c.query(), "mem")
+	if err != nil {
+		return result{}, plan{}, fmt.Errorf("Transfer.In returned %v before anything was sent", err)
+	}
+	req, err := cli.takeRequest(watchdog)
+	if err != nil {
+		return result{}, plan{}, err
+	}
+	var reqMAC []byte
+	if c.Tsig != nil {
+		mac, err := refVerify(req, c.key(), nil, false)
+		if err != nil {
+			return result{}, plan{}, fmt.Errorf("request TSIG: %v", err)
+		}
+		reqMAC = mac
+	}
+	p := buildPlan(c, reqMAC, uint64(time.Now().Unix()))
+	var ds [][]byte
+	for _, fr := range p.frames {
+		ds = append(ds, fr.b)
+	}
+	cli.deliver(ds)
+	r := collect(ch, cli, watchdog)
+	r.readTimeout = tr.ReadTimeout
+	cli.mu.Lock()
+	r.cutTo = cli.cutTo
+	cli.mu.Unlock()
+	if !cli.isClosed() {
+		cli.Close()
+	}
+	return r, p, nil
+}
+
 // serveOut runs the library's Transfer.Out behind a dns.Server on an in-memory listener and returns
 // the client end of a fresh connection plus a stop function.
 type outServer struct {
@@ -787,6 +878,7 @@ type outServer struct {
 	lis     *memListener
 	done    chan error
 	status  chan string // one entry per handled request
+	handled int32       // requests whose handler has returned
 	envs    [][]dns.RR
 	trailer bool
 	zone    string
@@ -811,6 +903,7 @@ func startOutServer(c xferCase) (*outServer, error) {
 		o.srv.TsigSecret = c.secrets()
 	}
 	o.srv.Handler = dns.HandlerFunc(func(w dns.ResponseWriter, r *dns.Msg) {
+		defer atomic.AddInt32(&o.handled, 1)
 		st := "unsigned"
 		if r.IsTsig() != nil {
 			if err := w.TsigStatus(); err != nil {
@@ -997,6 +1090,9 @@ func checkTimed(c xferCase, p plan, r result) error {
 
 // common part: the channel closes, and the receiver has closed the connection by then.
 func checkTermination(r result) error {
+	if r.stuck {
+		return pbt.Errf("the sender delivered the complete transfer and went idle, every octet was consumed, but the receiver keeps waiting for more envelopes instead of ending at the closing SOA (it would end in a read timeout): %s", describe(r))
+	}
 	if !r.chanClosed {
 		return pbt.Errf("the envelope channel was not closed within the watchdog time (%v; 10s for a stalled sender): %s", watchdog, describe(r))
 	}
@@ -1103,6 +1199,19 @@ func checkXfer(c xferCase) error {
 	if c.wrapClass() {
 		classes = append(classes, "serial-wrap")
 	}
+	if c.Transport == "dgram" {
+		sz := 0
+		for _, e := range c.envelopes() {
+			if n := len(packEnvelope(c, e)) + c.tsigRRLen(); n > sz {
+				sz = n
+			}
+		}
+		eff := c.UDPSize
+		if eff < 512 {
+			eff = 512
+		}
+		classes = append(classes, "transport=dgram", fmt.Sprintf("dgram/udpsize=%d", c.UDPSize), fmt.Sprintf("dgram/answer>max(512,UDPSize)=%v", sz > eff), fmt.Sprintf("dgram/datagrams=%s", bucket(len(c.Sizes))))
+	}
 	if c.multi() {
 		classes = append(classes, fmt.Sprintf("rounds=%d", len(c.Rounds)), fmt.Sprintf("rounds/tsig=%v", c.Tsig != nil))
 	}
@@ -1143,6 +1252,18 @@ func checkXfer(c xferCase) error {
 		}
 		if c.timed() && c.Fault.Kind == "" {
 			return checkTimed(c, p, r)
+		}
+		if c.Transport == "dgram" {
+			if c.Fault.Kind == "" {
+				if err := checkComplete(c, r); err != nil {
+					if r.cutTo > 0 {
+						return pbt.Errf("IXFR over a datagram conn (UDPSize %d): an answer of %d octets was read into a smaller buffer and cut: %v", c.UDPSize, r.cutTo, err)
+					}
+					return err
+				}
+				return nil
+			}
+			return checkFaulty(c, p, r)
 		}
 		if err := checkDeadlines(p, r); err != nil {
 			return err
@@ -1355,8 +1476,8 @@ func genSizes(t *rapid.T, n int) []int {
 	return out
 }
 
-var strongPlain = []string{"id", "rcode", "nosoa", "cut", "cut", "drop"}
-var strongTsig = []string{"id", "rcode", "nosoa", "cut", "alter", "alter", "strip", "wrongkey", "chain", "chain", "drop", "dup", "swap", "stale"}
+var strongPlain = []string{"id", "rcode", "nosoa", "cut", "cut", "drop", "runt"}
+var strongTsig = []string{"id", "rcode", "nosoa", "cut", "alter", "alter", "strip", "wrongkey", "chain", "chain", "drop", "dup", "swap", "stale", "runt"}
 var weakPlain = []string{"alter", "dup", "swap"}
 
 func genCase(t *rapid.T) xferCase {
@@ -1487,6 +1608,34 @@ func genCase(t *rapid.T) xferCase {
 	}
 	c.Trailer = rapid.Bool().Draw(t, "trailer")
 	c.Compress = c.Sender == "harness" && !big && rapid.Bool().Draw(t, "compress")
+	dgOK := map[string]bool{"": true, "id": true, "rcode": true, "nosoa": true, "alter": true, "strip": true, "wrongkey": true, "chain": true, "stale": true}
+	if c.Sender == "harness" && c.Mode != "axfr" && dgOK[c.Fault.Kind] && !big && rapid.IntRange(0, 5).Draw(t, "dgram") == 0 {
+		// IXFR over UDP: the caller hands Transfer.In a datagram conn; answers of 400..4000 octets
+		c.Transport = "dgram"
+		c.UDPSize = rapid.SampledFrom([]int{0, 0, 512, 600, 1232, 4096}).Draw(t, "udpsize")
+		c.Compress = false
+		if rapid.IntRange(0, 3).Draw(t, "onedatagram") > 0 {
+			c.Sizes = []int{len(c.flat())}
+		}
+		if c.Mode != "uptodate" {
+			fill := recSpec{T: "FILL", Owner: "fill", V: 1}
+			if c.Mode == "ixfr" {
+				c.Diffs[len(c.Diffs)-1].Add = append(c.Diffs[len(c.Diffs)-1].Add, fill)
+			} else {
+				c.Recs = append(c.Recs, fill)
+			}
+			if len(c.Sizes) == 1 {
+				c.Sizes = []int{len(c.flat())}
+			} else {
+				c.Sizes[len(c.Sizes)-1]++
+			}
+			target := rapid.SampledFrom([]int{400, 511, 512, 513, 600, 601, 1000, 1232, 1233, 2000, 4000, 4096, 4097}).Draw(t, "answer")
+			sizeFiller(&c, target)
+		}
+		if c.Fault.Env >= len(c.Sizes) {
+			c.Fault.Env = 0
+		}
+	}
 	if c.Sender != "harness" && c.Fault.Kind == "" && rapid.IntRange(0, 9).Draw(t, "multi") < 5 {
 		// several requests over one connection to the sending server
 		n := rapid.IntRange(2, 3).Draw(t, "nrounds")
